@@ -83,6 +83,15 @@ def covered_files(root, has_git):
     return cov, unspec
 
 
+def cmd_of(args):
+    """The sub-command of an invocation (global options and their values skipped)."""
+    known = ("lint", "lint-file", "spdx", "supported-licenses", "annotate", "convert-dep5", "download")
+    for a in args:
+        if a in known:
+            return ("--root DIR " + a) if args[0] == "--root" else a
+    return args[0]
+
+
 class Machine(RuleBasedStateMachine):
     def __init__(self):
         super().__init__()
@@ -353,7 +362,7 @@ class Machine(RuleBasedStateMachine):
         if self.base is not None:
             self.ctx.count({"history": self.history}, nontrivial=self.mutating >= 1 and self.readonly >= 1 and (self.has_link or self.has_ignored),
                            labels=[f"git:{self.has_git}", f"glob:{self.glob}", f"mutating:{min(self.mutating, 3)}", f"readonly:{min(self.readonly, 3)}", f"symlinks:{self.has_link}"]
-                           + sorted({f"cmd:{s['args'][0] if s['args'][0][0] != '-' or len(s['args']) == 1 else [a for a in s['args'] if not a.startswith('-')][0]}" for s in self.history[1:]}),
+                           + sorted({f"cmd:{cmd_of(s['args'])}" for s in self.history[1:]}),
                            sample=[s for s in self.history[1:]])
             tree.rmtree(self.base)
 
